@@ -1,6 +1,6 @@
 (* C11 - update rewrites only the addressed rule's @rx operand.  Statements only. *)
 From Coq Require Import String.
-From Verif Require Import Base.Str Base.Outcome Model.Update Proofs.UpdateProofs.
+From Verif Require Import Base.Str Base.Outcome Model.Update Proofs.UpdateProofs Proofs.RoundTripProofs.
 From Verif Require Tie.Pin_RuleRxRegex_src Tie.Pin_SecRuleRegex_src Tie.Pin_lits_cmd_regex_update_updateRegex
   Tie.Pin_lits_cmd_regex_update_processRule Tie.Pin_lits_cmd_regex_update_performUpdate.
 Open Scope N_scope.
@@ -41,3 +41,18 @@ Theorem C11_keeps_line_ending_refuted :
   update_contents ($"SecRule ARGS ""@rx old"" \" ++ [13; 10] ++ $"    ""id:942100""" ++ [13; 10]) $"942100" 0 $"NEW"
   = Ok ($"SecRule ARGS ""@rx NEW"" \" ++ [10] ++ $"    ""id:942100""" ++ [13; 10]).
 Proof. exact update_keeps_line_ending_refuted. Qed.
+
+(* the rewritten line is the old line with the operand replaced - and nothing else on that line
+   changes except that the text after the line continuation is dropped (finding C11-line-tail):
+   the old line is g1 ++ operand ++ closing ++ rest, the new one g1 ++ new ++ closing *)
+Theorem C11_rewritten_line_is_old_line_with_new_operand : forall contents id k new out,
+  update_contents contents id k new = Ok out ->
+  exists i g1 g2 rest,
+    nth i (split_on 10 contents) [] = g1 ++ g2 ++ closing ++ rest /\
+    out = join [10] (set_nth i (g1 ++ new ++ closing) (split_on 10 contents)).
+Proof.
+  intros contents id k new out H. destruct (update_frame _ _ _ _ _ H) as (i & g1 & g2 & g3 & rest & Hl & Hr & ->).
+  destruct (rx_match_parts _ _ _ _ _ Hr) as (-> & Hline & _).
+  exists i, g1, g2, rest. split; [exact Hline|reflexivity].
+Qed.
+Print Assumptions C11_rewritten_line_is_old_line_with_new_operand.
